@@ -78,7 +78,8 @@ class OuterSink:
     def __repr__(self): return 'Sink' + show_segs(self.segs)
 
 class IterV:
-    def __init__(self, seq, by_ref=True, kind='slice'): self.seq = seq; self.by_ref = by_ref; self.kind = kind
+    def __init__(self, seq, by_ref=True, kind='slice', maps=None, enum=False):
+        self.seq = seq; self.by_ref = by_ref; self.kind = kind; self.maps = list(maps or []); self.enum = enum
 
 class RangeV:
     def __init__(self, lo, hi): self.lo = lo; self.hi = hi
@@ -132,7 +133,7 @@ def seglen(s):
     if k == 'rep':
         bl = seqlen(s[3])
         if s[2] is None or not _mentions(bl, s[2]): return mul(s[1], bl)
-        return ('call', 'replen', s)
+        return ('Ssum', s[1], s[2], bl)      # sum over the repetition of the (element-dependent) body length
     if k == 'cond': return ite(s[1], seqlen(s[2]), seqlen(s[3]))
     if k == 'pkglen': return ('call', 'pkglen_len', s[1], s[2])
     if k == 'elem': return ONE
@@ -319,6 +320,8 @@ class Interp:
     def sym_value(self, ty, name):
         ty = ty.strip()
         nty = norm_ty(ty)
+        if not hasattr(self, 'root_types'): self.root_types = {}
+        if isinstance(name, str) and '.' not in name and '[' not in name: self.root_types[name] = strip_refs(nty)
         if nty.startswith('&mut dyn AmlSink') or nty == '&mut dyn AmlSink':
             s = OuterSink(); self.st.roots.append(s)
             return RefV(Cell(s), True)
@@ -373,6 +376,38 @@ class Interp:
             _, parts = split_generics('T<' + nty[1:-1] + '>')
             return TupleV([self.sym_value(p, '%s.%d' % (name, i)) for i, p in enumerate(parts)])
         return DynV(('a', name), ty=nty)
+
+    def type_of_path(self, path):
+        """static type of an input path such as `q.resource_structure[i]` (None when unknown)"""
+        m = re.match(r'^(\w+)(.*)$', path)
+        if not m or m.group(1) not in getattr(self, 'root_types', {}): return None
+        ty = self.root_types[m.group(1)]; rest = m.group(2)
+        while rest:
+            ty = norm_ty(strip_refs(ty))
+            if rest.startswith('[i]'):
+                rest = rest[3:].lstrip("'")
+                base, args = split_generics(ty)
+                mm = re.match(r'^\[(.*?)(; \d+)?\]$', ty)
+                if base == 'alloc::vec::Vec' and args: ty = args[0]
+                elif mm: ty = mm.group(1)
+                else: return None
+                continue
+            mm = re.match(r'^\.(\w+)(.*)$', rest)
+            if not mm: return None
+            fld, rest = mm.group(1), mm.group(2)
+            base, args = split_generics(ty)
+            if base == 'core::option::Option' and fld == 'Some':
+                ty = args[0]
+                mm2 = re.match(r'^\.0(.*)$', rest)
+                rest = mm2.group(1) if mm2 else rest
+                continue
+            if base == 'alloc::boxed::Box' and args: ty = args[0]; base, args = split_generics(ty)
+            adt = self.f.adt(base)
+            if not adt or adt['kind'] != 'Struct': return None
+            fd = [x for x in adt['variants'][0]['fields'] if x['name'] == fld]
+            if not fd: return None
+            ty = fd[0]['ty']
+        return norm_ty(strip_refs(ty))
 
     def enum_payload(self, ev, variant, field):
         """symbolic payload of a symbolic enum value"""
@@ -1118,6 +1153,15 @@ class Interp:
         seq, by_ref = self.iter_source(it)
         if seq is None:
             self.top('iteration over %r' % (it,), e); return
+        itv = it
+        while isinstance(itv, RefV): itv = itv.place.get()
+        if isinstance(itv, IterV) and (itv.maps or itv.enum):
+            inner = fn; maps = list(itv.maps)
+            if itv.enum: self.top('enumerate() is not modelled', e); return
+            def fn(el, inner=inner, maps=maps):
+                for m_ in maps:
+                    el = self.call_closure(m_, [el], e) if isinstance(m_, ClosureV) else el
+                return inner(el)
         if isinstance(seq, SliceV):
             r = self.slice_segs(seq)
             if r is None:
@@ -1352,6 +1396,12 @@ class Interp:
         params = b['params']
         if b['kind'] == 'Closure':
             params = params[1:]
+            if upvars is None and args and isinstance(deref_all(args[0]), ClosureV) and len(args) == 2:
+                # call through Fn/FnMut/FnOnce::call*(closure, (args,)): untuple and bind the captured variables
+                cv = deref_all(args[0])
+                tup = args[1]
+                args = list(tup.items) if isinstance(tup, TupleV) else ([] if isinstance(tup, Unit) else [tup])
+                return self.call_closure(cv, args, e)
             fr.upvars = upvars or {}
         self.st.frames.append(fr)
         try:
@@ -1489,6 +1539,10 @@ class Interp:
         if isinstance(obj, SeqV): return strip_refs(norm_ty(e['args'][0]['ty']))
         return None
 
+
+def deref_all(v):
+    while isinstance(v, RefV): v = v.place.get()
+    return v
 
 def _pe(e):
     try:
